@@ -503,7 +503,7 @@ func rule(quick bool) string {
 		t = "quick: n in 0..40; msize 4096: every k = 1..kmax; msize 65536: k = 1..n+2 and kmax-1, kmax (for larger k below msize-11 the first reply holds the whole directory)"
 	}
 	return "complete grid fs {localfs (real temp dir: regular files, directories, symlinks, fifos), staticfs, composefs flat / nested WithDir (outer/inner) / with a localfs mount (mnt) / with a staticfs mount (smnt)} x way {file-all, file-cut, client-server, file-all with a clone of the directory File made and closed between any two pages} x msize {4096, 65536} x name length {1, 17, 255} (raised to 2 resp. 3 for n = 1000 resp. 5000) x n x byte count; byte counts k*E-1, k*E, k*E+1 for entry size E = 24+len(name), k*E+1 <= msize-11, never below E, plus msize-12, msize-11, msize-10, msize-1, msize, msize+1, msize+E, 2*msize, 2*msize+1, 2^32-1; direct File access is msize independent and enumerates the union of both count lists once; " + t +
-		"; a case = one complete paged listing on a fresh directory handle; distinct outcome classes = fs x way x replies x entries per reply x verdict"
+		"; plus, for localfs through client and server, a subdirectory that is renamed (Trenameat on its parent) while a fid has it open - before the first Readdir or between the first and the second reply - for n in {0,1,2,7,40[,300]} x name length {1,17} x msize x byte counts {E, 2E, 3E+1, msize-11, 2*msize}: the listing through the open fid must still be complete, with the QIDs Walk/GetAttr report under the new name; a case = one complete paged listing on a fresh directory handle; distinct outcome classes = fs x way x replies x entries per reply x verdict"
 }
 
 func part(n int) string {
@@ -557,6 +557,13 @@ func run(ctx *fw.Ctx, rep *fw.Report) {
 		if err := json.Unmarshal(ctx.Replay.Params, &c); err != nil {
 			return
 		}
+		if c.FS == kRenamed {
+			is, _, _, _ := runRenamedCase(ctx, c)
+			for _, i := range is {
+				report(rep, c, i)
+			}
+			return
+		}
 		in := newInstance(c.FS, c.L, c.N)
 		defer in.dispose()
 		is, _, _, _ := runCase(ctx, in, c)
@@ -590,6 +597,9 @@ func run(ctx *fw.Ctx, rep *fw.Report) {
 		}
 		return cur
 	}
+
+	// the small family first: a directory renamed while a fid has it open
+	runRenamed(ctx, rep)
 
 	grid := gridFull
 	if quick {
